@@ -198,6 +198,66 @@ class Check:
         return 0
 
 
+class Recorder:
+    """Picklable stand-in for Check inside worker processes: records decide/ok/fail calls for replay in the parent."""
+
+    def __init__(self, tier: str, seed: int):
+        self.tier = tier
+        self.seed = seed
+        self.calls: list = []
+
+    def ok(self, rule, construct, detail="", how="structural"):
+        self.calls.append(("ok", (rule, construct, detail, how), {}))
+
+    def fail(self, rule, construct, message, where="", data=None, instance=""):
+        self.calls.append(("fail", (rule, construct, message, where, _plain(data), instance), {}))
+
+    def decide(self, cond, rule, construct, message, where="", data=None, instance="", detail="", how="structural"):
+        self.calls.append(("decide", (bool(cond), rule, construct, message, where, _plain(data), instance, detail, how), {}))
+        return cond
+
+    def need(self, cond, msg):
+        if not cond:
+            raise AnalysisError(msg)
+        return cond
+
+
+def _plain(x):
+    try:
+        return json.loads(json.dumps(x, default=str))
+    except Exception:
+        return str(x)
+
+
+def _pmap_worker(payload):
+    func, arg, tier, seed = payload
+    rec = Recorder(tier, seed)
+    try:
+        func(rec, arg)
+        return rec.calls, None
+    except Exception as e:  # re-raised in the parent as an analysis error
+        return rec.calls, f"{type(e).__name__}: {e}"
+
+
+def pmap(chk: "Check", func, args, jobs: int = 8):
+    """Run func(recorder, arg) for every arg in parallel processes (fork) and replay the recorded obligations into chk
+    in argument order.  func must be a module-level function."""
+    import multiprocessing as mp
+
+    args = list(args)
+    if len(args) <= 1 or jobs <= 1:
+        results = [_pmap_worker((func, a, chk.tier, chk.seed)) for a in args]
+    else:
+        ctx = mp.get_context("fork")
+        with ctx.Pool(min(jobs, len(args))) as pool:
+            results = pool.map(_pmap_worker, [(func, a, chk.tier, chk.seed) for a in args], chunksize=1)
+    for calls, err in results:
+        for name, a, kw in calls:
+            getattr(chk, name)(*a, **kw)
+        if err:
+            raise AnalysisError(err)
+
+
 def run_check(pid: str, fn, tier: str, seed: int, level: str, only_key: str | None = None) -> int:
     chk = Check(pid, tier, seed, level, only_key)
     try:
